@@ -168,6 +168,9 @@ func (sdib *SupportedServicesDIB) Unpack(data []byte) (n uint, err error) {
 		return
 	}
 
+	// The families are those found in the data, whatever the structure held before.
+	sdib.Families = nil
+
 	for n < uint(length) {
 		f := ServiceFamily{}
 		nn, err := f.Unpack(data[n:])
@@ -242,6 +245,9 @@ type DescriptionBlock struct {
 func (di *DescriptionBlock) Unpack(data []byte) (n uint, err error) {
 	var length uint8
 	var ty DescriptionType
+
+	// The result consists of the blocks found in the data, whatever the structure held before.
+	*di = DescriptionBlock{}
 
 	n = 0
 	for n < uint(len(data)) {
